@@ -39,6 +39,29 @@ fn main() {
         std::process::exit(2);
     }
     let prop = args[1].clone();
+    if prop == "bench" {
+        // developer aid: cost of one parse of a prefix-sweep style input
+        let mut buf: Vec<u8> = (0..65_575).map(|k| if k % 4 == 3 { 0u8 } else { 0x20 }).collect();
+        for (hdr, what) in [([0x20u8, 0, 0x08, 0x01], "no ext, LEN 2049"), ([0x21, 0, 0x08, 0x01], "ext, LEN 2049"), ([0x3F, 0, 0x0F, 0x01], "all flags, LEN 3841"), ([0x20, 0, 0xFF, 0x01], "no ext, LEN 65281")] {
+            buf[..4].copy_from_slice(&hdr);
+            let t = std::time::Instant::now();
+            let n = 200_000;
+            let mut ok = 0u64;
+            for _ in 0..n {
+                if let Ok((_, dlt_core::parse::ParsedMessage::Item(_))) = dlt_core::parse::dlt_message(&buf, None, false) {
+                    ok += 1;
+                }
+            }
+            let d1 = t.elapsed().as_nanos() as f64 / n as f64;
+            let t = std::time::Instant::now();
+            for _ in 0..n {
+                let _ = refmodel::decode(&buf, false);
+            }
+            let d2 = t.elapsed().as_nanos() as f64 / n as f64;
+            println!("{:<22} dlt_message {:>9.0} ns (ok {}), reference decode {:>9.0} ns", what, d1, ok, d2);
+        }
+        return;
+    }
     let mut tier = match std::env::var("VERIF_TIER").ok().as_deref() {
         Some("thorough") => Tier::Thorough,
         _ => Tier::Quick,
